@@ -15,6 +15,7 @@ Oracle protocol
 
 import hashlib
 import json
+import signal
 import math
 import os
 import sys
@@ -152,6 +153,14 @@ def classify_exception(exc):
     return "harness", where or "unknown"
 
 
+class CaseTimeout(BaseException):
+    pass
+
+
+def _on_alarm(signum, frame):
+    raise CaseTimeout()
+
+
 class Ctx:
     def __init__(
         self, prop, sub, tier, seed, shard, nshards, budget_s, known, replay=False
@@ -178,6 +187,12 @@ class Ctx:
         self.exhaustive = {}
         self.stage_counts = {}
         self.notes = {}
+
+    def case_timeout(self):
+        """seconds one case may take (quick 240, thorough 900); 0 when replaying"""
+        if self.replay or os.environ.get("VERIF_NO_CASE_TIMEOUT"):
+            return 0
+        return 240 if self.tier == "quick" else 900
 
     # ------------------------------------------------------------------ util
     def n(self, quick, thorough):
@@ -254,8 +269,29 @@ class Ctx:
         key = getattr(fn, "oracle_key", fn.__name__)
         self.evaluations += 1
         self.stage_counts[key] = self.stage_counts.get(key, 0) + 1
+        limit = self.case_timeout()
         try:
-            info = fn(self, case)
+            if limit:
+                signal.signal(signal.SIGALRM, _on_alarm)
+                signal.setitimer(signal.ITIMER_REAL, limit, 5.0)
+            try:
+                info = fn(self, case)
+            finally:
+                if limit:
+                    signal.setitimer(signal.ITIMER_REAL, 0)
+        except CaseTimeout:
+            # a case that does not finish is inconclusive, never a violation
+            # (no listed property is a liveness property); saved for diagnosis
+            self.count("case_timeout_inconclusive")
+            self.skips["case_timeout_inconclusive"] = self.skips.get("case_timeout_inconclusive", 0) + 1
+            try:
+                d = os.path.join(VERIF, "replays", self.prop)
+                os.makedirs(d, exist_ok=True)
+                with open(os.path.join(d, "timeout-%s-%s.json" % (key, hashlib.blake2b(canon(case).encode(), digest_size=6).hexdigest())), "w") as f:
+                    json.dump({"property": self.prop, "oracle": key, "clause": "case_timeout", "case": jsonable(case), "limit_s": limit}, f, default=_json_default)
+            except Exception:
+                pass
+            return {"skip": "case_timeout_inconclusive"}
         except Violation as v:
             self._record_violation(key, case, v)
             if self._is_known(v.signature):
